@@ -114,6 +114,31 @@ def r_filter(prog, R):
         r.ok("insert_ts=now", f.loc(ins[0][2]))
     else:
         r.viol("insert_ts=now", f.name, f.loc(f.ln), "entry->insert_ts is not now->sec (cache age would be wrong)")
+    # an accepted response is held by exactly one entry whose lifetime was computed from it:
+    # (1) success is reported only after both inserts, (2) every store of a record into an entry is
+    # accompanied by stores of that entry's expire_ts and insert_ts
+    mfx = MustFacts(f)
+    for b, i, el in f.returns():
+        if name_of_const(el.get("e")) == "ARES_SUCCESS":
+            miss = [nm for nm in ("ares_htable_strvp_insert", "ares_slist_insert") if not mfx.passed_call(b, i, nm)]
+            if miss:
+                r.viol("success=>inserted", f.name, f.loc(el), "success (cache took ownership) reported without %s: the response is held under a lifetime that was not computed for it" % miss)
+            else:
+                r.ok("success=>inserted", f.loc(el))
+    for g, b, i, el, n, w in field_accesses(prog, "ares_qcache_entry_t", "dnsrec"):
+        if not w:
+            continue
+        base = path(n["b"])
+        for fld in ("expire_ts", "insert_ts"):
+            def wr(e2, fld=fld, base=base):
+                return e2["k"] == "asg" and is_field(e2["e"]["l"], fld) and path(strip(e2["e"]["l"])["b"]) == base
+            before = can_reach_from_entry_avoiding(g, b, i, wr) is None
+            after = can_reach_exit_avoiding(g, b, i, wr) is None
+            key = "entry-record-with-%s@%s" % (fld, g.name)
+            if before or after:
+                r.ok(key, g.loc(el))
+            else:
+                r.viol(key, g.name, g.loc(el), "a response is stored into cache entry '%s' without setting its %s: it would be replayed under another response's lifetime" % (base, fld))
     # calc_minttl: takes the minimum; soa_minimum: min(MINIMUM, ttl)
     g = prog.func("ares_qcache_calc_minttl")
     fl = [cl for cl in find_clamps(g, "minttl")]
